@@ -1,23 +1,178 @@
 import Girc.Spec.Sim
 import Girc.Proofs.InvHandlers
+import Girc.Proofs.SimLeaveOps
 /-
   C04 proofs, part 4: messages that remove members (PART, KICK, QUIT), with users forgotten exactly
   when they share no tracked channel.
   In every statement `st`/`r` are the states AFTER the account-tag step.
 -/
 namespace Girc.Proofs.SimLeave
-open Girc Girc.Model Girc.Spec
+open Girc Girc.Model Girc.Spec Girc.Proofs.InvBase
+
+/-- "Is this me" is the same question on both sides. -/
+theorem isMe_iff {st : St} {r : Ref} (h : Sim st r) (cfg : Cfg) (n : Bytes) :
+    r.isMe cfg n = true ↔ fold n = getID cfg st := by
+  unfold Ref.isMe Ref.myNick getID getNick
+  rw [h.nick]
+  simp
+
+theorem isMember_iff (r : Ref) (c u : Bytes) : r.isMember c u = true ↔ (c, u) ∈ r.members := by
+  unfold Ref.isMember
+  exact List.contains_iff_mem
+
+/-! ### what the reference does -/
+
+theorem cmdStep_PART (cfg : Cfg) (r : Ref) (e : Event) (hcmd : e.command = cPART) :
+    r.cmdStep cfg e =
+      (match e.source, e.params with
+       | some src, chan :: _ =>
+         if chan.isEmpty then r
+         else if r.isMe cfg src.name then r.dropChan (fold chan)
+         else if AMap.contains r.chans (fold chan) then r.dropMember (fold chan) (fold src.name) else r
+       | _, _ => r) := by
+  unfold Ref.cmdStep
+  simp only [hcmd, show cPART ≠ c001 from by decide, show cPART ≠ cJOIN from by decide, if_false, if_true]
+  rfl
+
+theorem cmdStep_KICK (cfg : Cfg) (r : Ref) (e : Event) (hcmd : e.command = cKICK) :
+    r.cmdStep cfg e =
+      (match e.params with
+       | chan :: victim :: _ =>
+         if r.isMe cfg victim then r.dropChan (fold chan)
+         else if AMap.contains r.chans (fold chan) then r.dropMember (fold chan) (fold victim) else r
+       | _ => r) := by
+  unfold Ref.cmdStep
+  simp only [hcmd, show cKICK ≠ c001 from by decide, show cKICK ≠ cJOIN from by decide,
+    show cKICK ≠ cPART from by decide, if_false, if_true]
+  rfl
+
+theorem cmdStep_QUIT (cfg : Cfg) (r : Ref) (e : Event) (hcmd : e.command = cQUIT) :
+    r.cmdStep cfg e =
+      (match e.source with
+       | some src => if r.isMe cfg src.name then r else r.dropUser (fold src.name)
+       | none => r) := by
+  unfold Ref.cmdStep
+  simp only [hcmd, show cQUIT ≠ c001 from by decide, show cQUIT ≠ cJOIN from by decide,
+    show cQUIT ≠ cPART from by decide, show cQUIT ≠ cKICK from by decide, if_false, if_true]
+  rfl
+
+/-! ### what a conformant server sends -/
+
+theorem conformant_PART {cfg : Cfg} {r : Ref} {e : Event} (hc : r.conformant cfg e = true)
+    (hcmd : e.command = cPART) :
+    ∃ src chan rest, e.source = some src ∧ e.params = chan :: rest ∧
+      r.knownChan chan = true ∧ r.isMember (fold chan) (fold src.name) = true := by
+  unfold Ref.conformant at hc
+  simp only [hcmd, show cPART ≠ cJOIN from by decide, if_false, if_true, Bool.and_eq_true] at hc
+  obtain ⟨_, _, hm⟩ := hc
+  cases hs : e.source with
+  | none => rw [hs] at hm; simp at hm
+  | some src =>
+    cases hp : e.params with
+    | nil => rw [hs, hp] at hm; simp at hm
+    | cons chan rest =>
+      rw [hs, hp] at hm
+      simp only [Bool.and_eq_true] at hm
+      exact ⟨src, chan, rest, rfl, rfl, hm.1, hm.2⟩
+
+theorem conformant_KICK {cfg : Cfg} {r : Ref} {e : Event} (hc : r.conformant cfg e = true)
+    (hcmd : e.command = cKICK) :
+    ∃ chan victim rest, e.params = chan :: victim :: rest ∧
+      r.knownChan chan = true ∧ r.isMember (fold chan) (fold victim) = true := by
+  unfold Ref.conformant at hc
+  simp only [hcmd, show cKICK ≠ cJOIN from by decide, show cKICK ≠ cPART from by decide,
+    if_false, if_true, Bool.and_eq_true] at hc
+  obtain ⟨_, hm⟩ := hc
+  cases hp : e.params with
+  | nil => rw [hp] at hm; simp at hm
+  | cons chan l =>
+    cases l with
+    | nil => rw [hp] at hm; simp at hm
+    | cons victim rest =>
+      rw [hp] at hm
+      simp only [Bool.and_eq_true] at hm
+      exact ⟨chan, victim, rest, rfl, hm.1, hm.2⟩
+
+theorem conformant_QUIT {cfg : Cfg} {r : Ref} {e : Event} (hc : r.conformant cfg e = true)
+    (hcmd : e.command = cQUIT) :
+    ∃ src, e.source = some src ∧ r.knownUser src.name = true ∧ r.isMe cfg src.name = false := by
+  unfold Ref.conformant at hc
+  simp only [hcmd, show cQUIT ≠ cJOIN from by decide, show cQUIT ≠ cPART from by decide,
+    show cQUIT ≠ cKICK from by decide, if_false, if_true, Bool.and_eq_true] at hc
+  obtain ⟨_, _, hm⟩ := hc
+  cases hs : e.source with
+  | none => rw [hs] at hm; simp at hm
+  | some src =>
+    rw [hs] at hm
+    simp only [Bool.and_eq_true, Bool.not_eq_true'] at hm
+    exact ⟨src, rfl, hm.1, hm.2⟩
+
+/-! ### the three messages -/
 
 theorem sim_PART {st : St} {r : Ref} (cfg : Cfg) (e : Event) (h : Sim st r)
     (hc : r.conformant cfg e = true) (hcmd : e.command = cPART) :
-    ∃ st', handlePART cfg st e = .ok st' ∧ Sim st' (r.cmdStep cfg e) := by sorry
+    ∃ st', handlePART cfg st e = .ok st' ∧ Sim st' (r.cmdStep cfg e) := by
+  obtain ⟨src, chan, rest, hs, hp, hkc, hm⟩ := conformant_PART hc hcmd
+  have hkc : AMap.contains r.chans (fold chan) = true := hkc
+  rw [cmdStep_PART cfg r e hcmd]
+  unfold handlePART
+  rw [hs, hp]
+  simp only []
+  by_cases hemp : chan = []
+  · subst hemp
+    exact ⟨st, by simp, by simpa using h⟩
+  · have hemp' : chan.isEmpty = false := by simpa using hemp
+    rw [if_neg hemp, hemp']
+    simp only [Bool.false_eq_true, if_false]
+    by_cases hme : fold src.name = getID cfg st
+    · rw [if_pos hme, if_pos ((isMe_iff h cfg src.name).mpr hme)]
+      exact sim_dropChan h chan hkc
+    · have hme' : ¬ r.isMe cfg src.name = true := fun hh => hme ((isMe_iff h cfg src.name).mp hh)
+      rw [if_neg hme, if_neg hme', if_pos hkc]
+      have := sim_dropMember h chan (fold src.name) hemp
+        (by rw [fold_idem]; exact (isMember_iff r _ _).mp hm)
+      rw [fold_idem] at this
+      exact this
 
 theorem sim_KICK {st : St} {r : Ref} (cfg : Cfg) (e : Event) (h : Sim st r)
     (hc : r.conformant cfg e = true) (hcmd : e.command = cKICK) :
-    ∃ st', handleKICK cfg st e = .ok st' ∧ Sim st' (r.cmdStep cfg e) := by sorry
+    ∃ st', handleKICK cfg st e = .ok st' ∧ Sim st' (r.cmdStep cfg e) := by
+  obtain ⟨chan, victim, rest, hp, hkc, hm⟩ := conformant_KICK hc hcmd
+  have hkc : AMap.contains r.chans (fold chan) = true := hkc
+  rw [cmdStep_KICK cfg r e hcmd]
+  have hrun : handleKICK cfg st e =
+      (if fold victim = getID cfg st then st.deleteChannel chan else st.deleteUser chan victim) := by
+    unfold handleKICK
+    rw [hp]
+    rfl
+  rw [hrun, hp]
+  simp only []
+  by_cases hme : fold victim = getID cfg st
+  · rw [if_pos hme, if_pos ((isMe_iff h cfg victim).mpr hme)]
+    exact sim_dropChan h chan hkc
+  · have hme' : ¬ r.isMe cfg victim = true := fun hh => hme ((isMe_iff h cfg victim).mp hh)
+    rw [if_neg hme, if_neg hme', if_pos hkc]
+    have hemp : chan ≠ [] := by
+      intro e'
+      exact h.chanKeysNonempty (fold chan) hkc (by rw [e']; rfl)
+    exact sim_dropMember h chan victim hemp ((isMember_iff r _ _).mp hm)
 
 theorem sim_QUIT {st : St} {r : Ref} (cfg : Cfg) (e : Event) (h : Sim st r)
     (hc : r.conformant cfg e = true) (hcmd : e.command = cQUIT) :
-    ∃ st', handleQUIT cfg st e = .ok st' ∧ Sim st' (r.cmdStep cfg e) := by sorry
+    ∃ st', handleQUIT cfg st e = .ok st' ∧ Sim st' (r.cmdStep cfg e) := by
+  obtain ⟨src, hs, hku, hnme⟩ := conformant_QUIT hc hcmd
+  rw [cmdStep_QUIT cfg r e hcmd]
+  unfold handleQUIT
+  rw [hs]
+  simp only []
+  have hme : ¬ fold src.name = getID cfg st := by
+    intro hh
+    rw [(isMe_iff h cfg src.name).mpr hh] at hnme
+    cases hnme
+  rw [if_neg hme, hnme]
+  simp only [Bool.false_eq_true, if_false]
+  have := sim_dropUser h (fold src.name) (by rw [fold_idem]; exact hku)
+  rw [fold_idem] at this
+  exact this
 
 end Girc.Proofs.SimLeave
